@@ -300,7 +300,7 @@ func (c *Ctx) checkMustWalk(fn *ssa.Function) {
 		r.Violate("R6.3", key, pos, "shard preload constructor has no error result")
 		return
 	}
-	fetch := c.G.Fetchers(map[string]bool{"hamt": true})
+	fetch := c.G.Loaders(map[string]bool{"hamt": true})
 	reach := c.G.ReachersOf(fetch)
 	// candidate walk calls: static calls to methods of the shard type that reach a loader
 	var W *ssa.Function
